@@ -86,11 +86,10 @@ func runProp(id, tier string) int {
 	if c.Prog != nil {
 		p.run(c)
 	}
-	code := c.Finish()
-	if tier == "thorough" && os.Getenv("VERIF_NO_MUTANTS") == "" && code == 0 {
+	if tier == "thorough" && os.Getenv("VERIF_NO_MUTANTS") == "" {
 		runMutants(c)
 	}
-	return code
+	return c.Finish()
 }
 
 func dumpCmd(args []string) {
